@@ -149,6 +149,42 @@ impl Module for RecBank {
     }
 }
 
+/// Recording wasm module: logs, then delegates to the real keeper. Messages between contracts must pass through the
+/// module the application was built with, like those of every other kind.
+pub struct RecWasm {
+    pub hub: Hub,
+    pub inner: WasmKeeper<PMsg, PQuery>,
+}
+impl cw_multi_test::Wasm<PMsg, PQuery> for RecWasm {
+    fn execute(&self, api: &dyn Api, storage: &mut dyn Storage, router: &dyn CosmosRouter<ExecC = PMsg, QueryC = PQuery>, block: &BlockInfo, sender: Addr, msg: cosmwasm_std::WasmMsg) -> AnyResult<AppResponse> {
+        self.hub.record("wasm", "exec", Some(sender.to_string()), format!("{:?}", msg));
+        self.inner.execute(api, storage, router, block, sender, msg)
+    }
+    fn query(&self, api: &dyn Api, storage: &dyn Storage, querier: &dyn Querier, block: &BlockInfo, request: cosmwasm_std::WasmQuery) -> AnyResult<Binary> {
+        self.hub.record("wasm", "query", None, format!("{:?}", request));
+        self.inner.query(api, storage, querier, block, request)
+    }
+    fn sudo(&self, api: &dyn Api, storage: &mut dyn Storage, router: &dyn CosmosRouter<ExecC = PMsg, QueryC = PQuery>, block: &BlockInfo, msg: cw_multi_test::WasmSudo) -> AnyResult<AppResponse> {
+        self.hub.record("wasm", "sudo", None, format!("{:?}", msg));
+        self.inner.sudo(api, storage, router, block, msg)
+    }
+    fn store_code(&mut self, creator: Addr, code: Box<dyn cw_multi_test::Contract<PMsg, PQuery>>) -> u64 {
+        self.inner.store_code(creator, code)
+    }
+    fn store_code_with_id(&mut self, creator: Addr, code_id: u64, code: Box<dyn cw_multi_test::Contract<PMsg, PQuery>>) -> AnyResult<u64> {
+        self.inner.store_code_with_id(creator, code_id, code)
+    }
+    fn duplicate_code(&mut self, code_id: u64) -> AnyResult<u64> {
+        self.inner.duplicate_code(code_id)
+    }
+    fn contract_data(&self, storage: &dyn Storage, address: &Addr) -> AnyResult<cw_multi_test::ContractData> {
+        self.inner.contract_data(storage, address)
+    }
+    fn dump_wasm_raw(&self, storage: &dyn Storage, address: &Addr) -> Vec<cosmwasm_std::Record> {
+        self.inner.dump_wasm_raw(storage, address)
+    }
+}
+
 pub struct RecStargate {
     pub hub: Hub,
 }
@@ -198,7 +234,7 @@ pub type RApp = App<
     MockApi,
     MockStorage,
     Rec<PMsg, PQuery, Empty>,
-    WasmKeeper<PMsg, PQuery>,
+    RecWasm,
     Rec<StakingMsg, StakingQuery, StakingSudo>,
     Rec<DistributionMsg, Empty, Empty>,
     Rec<IbcMsg, IbcQuery, Empty>,
@@ -224,6 +260,7 @@ impl RWorld {
         let mut app = b
             .with_bank(RecBank { hub: hub.clone(), inner: BankKeeper::new() })
             .with_custom(Rec::<PMsg, PQuery, Empty>::new("custom", &hub))
+            .with_wasm(RecWasm { hub: hub.clone(), inner: WasmKeeper::new() })
             .with_staking(Rec::<StakingMsg, StakingQuery, StakingSudo>::new("staking", &hub))
             .with_distribution(Rec::<DistributionMsg, Empty, Empty>::new("distribution", &hub))
             .with_ibc(Rec::<IbcMsg, IbcQuery, Empty>::new("ibc", &hub))
@@ -259,9 +296,11 @@ pub enum Kind {
     Gov,
     Stargate,
     Any,
+    /// a message to another contract: it passes through the configured wasm module like any other kind
+    Wasm,
 }
 
-pub const KINDS: [Kind; 9] = [Kind::Bank, Kind::BankEmpty, Kind::Staking, Kind::Distribution, Kind::Custom, Kind::Ibc, Kind::Gov, Kind::Stargate, Kind::Any];
+pub const KINDS: [Kind; 10] = [Kind::Bank, Kind::BankEmpty, Kind::Staking, Kind::Distribution, Kind::Custom, Kind::Ibc, Kind::Gov, Kind::Stargate, Kind::Any, Kind::Wasm];
 
 pub fn module_of(k: Kind) -> &'static str {
     match k {
@@ -272,11 +311,13 @@ pub fn module_of(k: Kind) -> &'static str {
         Kind::Ibc => "ibc",
         Kind::Gov => "gov",
         Kind::Stargate | Kind::Any => "stargate",
+        Kind::Wasm => "wasm",
     }
 }
 
 pub fn make_msg(k: Kind, n: u64, to: &str) -> CosmosMsg<PMsg> {
     match k {
+        Kind::Wasm => to_cosmos::<PMsg>(&Msg::Exec { addr: to.to_string(), script: Box::new(Script { tag: 900_000 + n as u32, ..Default::default() }), funds: vec![] }),
         Kind::Bank => CosmosMsg::Bank(BankMsg::Send { to_address: to.to_string(), amount: vec![coin(1 + n as u128 % 3, "ua")] }),
         Kind::BankEmpty => CosmosMsg::Bank(BankMsg::Send { to_address: format!("{}-{}", to, n), amount: vec![] }),
         Kind::Staking => CosmosMsg::Staking(StakingMsg::Delegate { validator: format!("val{}", n), amount: coin(n as u128 + 1, "ua") }),
@@ -298,6 +339,7 @@ pub fn expected_payload(m: &CosmosMsg<PMsg>) -> String {
         CosmosMsg::Custom(c) => format!("{:?}", c),
         CosmosMsg::Ibc(i) => format!("{:?}", i),
         CosmosMsg::Gov(g) => format!("{:?}", g),
+        CosmosMsg::Wasm(w) => format!("{:?}", w),
         #[allow(deprecated)]
         CosmosMsg::Stargate { type_url, value } => format!("stargate {} {}", type_url, hex(value)),
         CosmosMsg::Any(a) => format!("any {} {}", a.type_url, hex(&a.value)),
@@ -413,7 +455,7 @@ pub fn exec_cell(w: &mut RWorld, k: Kind, origin: Origin, ent: Ent, mode: RMode,
     let sibling_module = sibling.as_ref().map(|_| if k == Kind::Ibc { "gov" } else { "ibc" });
     let (top, known_sender, emit_tag) = build(w, origin, ent, &msg, mode, sibling.as_ref(), (n as u32) * 100 + 5000);
     let module = module_of(k);
-    let module_fails = (module != "bank" && w.hub.fails(module)) || k == Kind::BankEmpty;
+    let module_fails = (module != "bank" && module != "wasm" && w.hub.fails(module)) || k == Kind::BankEmpty;
     let sibling_fails = sibling_module.map(|m| w.hub.fails(m)).unwrap_or(false);
     let before = rawstate::dump(w.app.storage());
     w.hub.log.borrow_mut().clear();
@@ -465,7 +507,7 @@ pub fn exec_cell(w: &mut RWorld, k: Kind, origin: Origin, ent: Ent, mode: RMode,
     }
     // no other module saw anything it should not have
     for e in &log {
-        let allowed = e.payload == expected_payload(&msg) || sibling.as_ref().map(|s| e.payload == expected_payload(s)).unwrap_or(false) || e.module == "bank";
+        let allowed = e.payload == expected_payload(&msg) || sibling.as_ref().map(|s| e.payload == expected_payload(s)).unwrap_or(false) || e.module == "bank" || e.module == "wasm";
         if !allowed {
             return Some(("unrelated-module-invoked".into(), format!("{}: unexpected log entry {:?}", ctx, e)));
         }
@@ -497,7 +539,7 @@ pub fn exec_cell(w: &mut RWorld, k: Kind, origin: Origin, ent: Ent, mode: RMode,
         if !trace.iter().any(|t| matches!(&t.reply, Some((2, _, ReplySeen::Err)))) {
             return Some(("module-failure-not-reported-to-reply".into(), format!("{}: no error reply in trace", ctx)));
         }
-    } else if module != "bank" {
+    } else if module != "bank" && module != "wasm" {
         if !rawstate::diff(&before, &after).iter().any(|l| l.contains(&format!("rec{}/", module))) {
             return Some(("accepted-module-effect-lost".into(), format!("{}: marker of {} missing", ctx, module)));
         }
@@ -541,14 +583,19 @@ pub enum QKind {
     Ibc,
     Stargate,
     Grpc,
+    Wasm,
 }
-pub const QKINDS: [QKind; 6] = [QKind::Bank, QKind::Staking, QKind::Custom, QKind::Ibc, QKind::Stargate, QKind::Grpc];
+pub const QKINDS: [QKind; 7] = [QKind::Bank, QKind::Staking, QKind::Custom, QKind::Ibc, QKind::Stargate, QKind::Grpc, QKind::Wasm];
 
 fn make_query(k: QKind, n: u64, addr: &str) -> (QueryRequest<PQuery>, &'static str, String) {
     match k {
         QKind::Bank => {
             let q = BankQuery::Balance { address: addr.to_string(), denom: format!("ua{}", n % 2) };
             (QueryRequest::Bank(q.clone()), "bank", format!("{:?}", q))
+        }
+        QKind::Wasm => {
+            let q = if n % 2 == 0 { cosmwasm_std::WasmQuery::ContractInfo { contract_addr: addr.to_string() } } else { cosmwasm_std::WasmQuery::Raw { contract_addr: addr.to_string(), key: Binary::from(vec![n as u8, (n >> 8) as u8]) } };
+            (QueryRequest::Wasm(q.clone()), "wasm", format!("{:?}", q))
         }
         QKind::Staking => {
             let q = StakingQuery::Validator { address: format!("val{}", n) };
@@ -572,7 +619,7 @@ pub fn query_cell(w: &mut RWorld, k: QKind, origin: Origin, n: u64, rep: &mut Re
     let addr = w.puppets[0].clone();
     let (req, module, payload) = make_query(k, n, &addr);
     let bytes = to_json_vec(&req).unwrap();
-    let module_fails = module != "bank" && w.hub.fails(module);
+    let module_fails = module != "bank" && module != "wasm" && w.hub.fails(module);
     let before = rawstate::dump(w.app.storage());
     w.hub.log.borrow_mut().clear();
     let _ = take_trace();
@@ -620,7 +667,7 @@ pub fn query_cell(w: &mut RWorld, k: QKind, origin: Origin, n: u64, rep: &mut Re
         return Some(("query-routed-to-another-module".into(), format!("{}: delivered to {:?}", ctx, mine.iter().map(|e| e.module).collect::<Vec<_>>())));
     }
     for e in &log {
-        if e.kind == "query" && e.payload != payload && e.module != "bank" {
+        if e.kind == "query" && e.payload != payload && e.module != "bank" && e.module != "wasm" {
             return Some(("unrelated-module-queried".into(), format!("{}: {:?}", ctx, e)));
         }
     }
@@ -629,7 +676,7 @@ pub fn query_cell(w: &mut RWorld, k: QKind, origin: Origin, n: u64, rep: &mut Re
     }
     if let Some(a) = &answer {
         let want: Vec<u8> = match k {
-            QKind::Bank => a.clone(), // the real keeper's answer (C09/C10 judge it)
+            QKind::Bank | QKind::Wasm => a.clone(), // the real keepers' answers (C08-C11 judge them)
             QKind::Grpc => b"\"grpc-answer\"".to_vec(),
             _ => format!("\"{}-answer\"", module).into_bytes(),
         };
